@@ -67,6 +67,8 @@ func checkC07(c *Ctx) {
 	c.codecLengthTables()
 	// an UNSUBSCRIBE removes what the SUBSCRIBE (or the resumed session) registered: one subscriber token per connection
 	c.tokenIdentity()
+	// answers computed once and kept are reset by every update of what they were computed from
+	c.memoisedViews()
 }
 
 // afterNever: no b after a (within the case).
